@@ -428,6 +428,13 @@ func runFsmCaseFaults2(c *vCtx, idx int64, prop string, oracle fsmOracle, cfg fs
 	if idx%3 == 1 {
 		timeOn = 1 + int(idx/3%3)
 	}
+	hasFFC := false
+	for _, e := range evs {
+		hasFFC = hasFFC || e.FFC
+	}
+	if hasFFC {
+		timeOn = 0 // the 10 s rule needs a running time-on
+	}
 	// every fifth case with a telemetry frame counter that is not unique per frame
 	counter := 0
 	if idx%5 == 2 {
@@ -488,6 +495,9 @@ func runFsmCaseFaults2(c *vCtx, idx int64, prop string, oracle fsmOracle, cfg fs
 		if timeOn != 0 {
 			c.Count("scripts_with_non_increasing_time_on", 1)
 		}
+		if hasFFC {
+			c.Count("scripts_with_ffc_events", 1)
+		}
 		c.Seen("frame_counter_modes", fmt.Sprint(counter))
 		if counter != 0 {
 			c.Count("scripts_with_non_unique_frame_counter", 1)
@@ -533,6 +543,7 @@ func fsmRandomScript(rng *vRNG, cfg fsmConfig, n int, withFaults bool) []fsmEven
 	pWin, pCheck, pStart := 0, 0, 0
 	pQuery := rng.PickInt(0, 0, 5, 30) // snapshot queries interleaved with the frames
 	pSnap := rng.PickInt(0, 0, 1, 4)   // test-recording requests interleaved with the frames
+	pFFC := rng.PickInt(0, 0, 0, 1, 3) // flat-field corrections (each blinds the detector for 10 s of time-on)
 	if withFaults {
 		pBad = rng.PickInt(0, 0, 1, 3)
 		pReset = rng.PickInt(0, 0, 1, 2)
@@ -566,6 +577,7 @@ func fsmRandomScript(rng *vRNG, cfg fsmConfig, n int, withFaults bool) []fsmEven
 		} else if rng.Intn(100) < pSnap {
 			evs = append(evs, fsmEvent{Kind: evSnap})
 		}
+		e.FFC = rng.Intn(100) < pFFC
 		e.WinClosed = winClosed || rng.Intn(100) < pWin/4
 		e.CheckFail = rng.Intn(100) < pCheck
 		e.StartFail = rng.Intn(100) < pStart
